@@ -7,6 +7,8 @@ import (
 	"time"
 
 	"github.com/tsawler/tabula"
+	"github.com/tsawler/tabula/contentstream"
+	"github.com/tsawler/tabula/text"
 )
 
 // TestListLevelFromTheFileIsBounded: w:ilvl is a number written in the file; the DOCX writers repeat the
@@ -61,4 +63,90 @@ func pptxLevel(t *testing.T, lvl string) string {
 		{"ppt/_rels/presentation.xml.rels", `<?xml version="1.0"?><Relationships xmlns="http://schemas.openxmlformats.org/package/2006/relationships"><Relationship Id="rId1" Type="http://schemas.openxmlformats.org/officeDocument/2006/relationships/slide" Target="slides/slide1.xml"/></Relationships>`},
 		{"ppt/slides/slide1.xml", slide},
 	})
+}
+
+// TestUnterminatedContentStreamDict: a content stream cut off inside a dictionary, after white space.
+func TestUnterminatedContentStreamDict(t *testing.T) {
+	for _, src := range []string{"<< ", "<< /A 1 ", "/Span << /MCID 0 ", "BT /Span <<\n"} {
+		func() {
+			defer func() {
+				if r := recover(); r != nil {
+					t.Errorf("%q: panic: %v", src, r)
+				}
+			}()
+			contentstream.NewParser([]byte(src)).Parse()
+			text.NewExtractor().ExtractFromBytes([]byte(src))
+		}()
+	}
+}
+
+// onePagePDF: one page with the given MediaBox and content stream.
+func onePagePDF(t *testing.T, mediaBox, content string) string {
+	w := newPDF()
+	w.set(1, "<< /Type /Catalog /Pages 2 0 R >>")
+	w.set(10, "<< /Type /Page /Parent 2 0 R /MediaBox "+mediaBox+" /Resources << /Font << /F1 3 0 R >> >> /Contents 11 0 R >>")
+	w.stream(11, "", content, 0)
+	w.set(2, "<< /Type /Pages /Kids [10 0 R] /Count 1 >>")
+	w.set(3, fontObj)
+	return writeTemp(t, "m.pdf", w.bytes(1))
+}
+
+func answers(t *testing.T, what string, f func() string) {
+	done := make(chan string, 1)
+	go func() {
+		defer func() {
+			if r := recover(); r != nil {
+				done <- fmt.Sprint("panic: ", r)
+			}
+		}()
+		done <- f()
+	}()
+	select {
+	case msg := <-done:
+		if msg != "" {
+			t.Errorf("%s: %s", what, msg)
+		}
+	case <-time.After(30 * time.Second):
+		t.Fatalf("%s: no answer within 30s", what)
+	}
+}
+
+// TestPageWidthFromTheFileIsBounded: the MediaBox is a number written in the file; column detection sizes a
+// histogram by the page width.
+func TestPageWidthFromTheFileIsBounded(t *testing.T) {
+	cs := "BT /F1 12 Tf 72 700 Td (Left column text here) Tj 300 0 Td (Right column text) Tj 0 -14 Td (more right) Tj -300 0 Td (more left) Tj ET"
+	for _, mb := range []string{"[0 0 -2147483648 792]", "[0 0 9223372036854775807 792]", "[0 0 2147483648 792]", "[0 0 612 9223372036854775807]", "[0 0 612 -2147483648]"} {
+		p := onePagePDF(t, mb, cs)
+		answers(t, "MediaBox "+mb, func() string {
+			tabula.Open(p).ByColumn().Text()
+			tabula.Open(p).Document()
+			tabula.Open(p).ExcludeHeadersAndFooters().Text()
+			tabula.Open(p).Chunks()
+			tabula.Open(p).Analyze()
+			return ""
+		})
+	}
+}
+
+// TestPreserveLayoutPositionsAreBounded: text positions are numbers written in the content stream; the layout
+// writer turns horizontal distance into spaces and vertical distance into line breaks.
+func TestPreserveLayoutPositionsAreBounded(t *testing.T) {
+	for _, cs := range []string{
+		"BT /F1 12 Tf 72 700 Td (A) Tj 2147483648 0 Td (B) Tj ET",
+		"BT /F1 12 Tf 72 700 Td (A) Tj 0 -2147483648 Td (B) Tj ET",
+		"BT /F1 12 Tf 72 700 Td (A) Tj 9223372036854775807 0 Td (B) Tj ET",
+		"BT /F1 12 Tf 72 700 Td (A) Tj 0 -9223372036854775807 Td (B) Tj ET",
+	} {
+		p := onePagePDF(t, "[0 0 612 792]", cs)
+		answers(t, cs, func() string {
+			txt, _, err := tabula.Open(p).PreserveLayout().Text()
+			if err == nil && len(txt) > 1<<20 {
+				return fmt.Sprintf("%d bytes of text for two glyphs", len(txt))
+			}
+			if err == nil && (!strings.Contains(txt, "A") || !strings.Contains(txt, "B")) {
+				return "text lost: " + txt
+			}
+			return ""
+		})
+	}
 }
